@@ -8,6 +8,11 @@ CandAll == { [z |-> 1, a |-> 1, s |-> 0, ab |-> 999850010], [z |-> 1, a |-> 3, s
              [z |-> 95, a |-> 241, s |-> 0, ab |-> 0], [z |-> 95, a |-> 242, s |-> 0, ab |-> 0],
              [z |-> 95, a |-> 242, s |-> 1, ab |-> 0], [z |-> 95, a |-> 142, s |-> 0, ab |-> 0] }
 CandSmall == { c \in CandAll : ~(c.z = 95 /\ c.a = 241) }
+(* what-if: potassium-38m and the unphysical potassium-438 share the MCNP identifier 19438 and nothing else *)
+CandMcnp == { [z |-> 19, a |-> 38, s |-> 1, ab |-> 0], [z |-> 19, a |-> 438, s |-> 0, ab |-> 0], [z |-> 19, a |-> 39, s |-> 0, ab |-> 932581000] }
+NoZ == {}
+NoSpec == {}
+NoMcc == {}
 NatH == {1}
 SpecDump == { sp \in Specials : sp.name \in {"DUMP1"} }
 MccAll == { [name |-> "H1", v2 |-> "HYDRGN", v70 |-> "H1___7", v71 |-> "H1___7"],
